@@ -35,6 +35,8 @@ func (s *stuckEnd) Close() error {
 	return nil
 }
 
+var stuckMu sync.Mutex // the scenarios run concurrently and share the report's Extra map
+
 type stuckCase struct {
 	Client bool   `json:"client"`
 	Busy   string `json:"busy"`   // read | write : the call that is in flight in the transport
@@ -159,7 +161,9 @@ func runStuck(rep *Report, sc stuckCase, hold time.Duration) {
 	case <-time.After(hold + 8*time.Second):
 		rep.miss("stuck-closer-did-not-return", sc, "blocked in: "+libStacks())
 	}
+	stuckMu.Lock()
 	rep.Extra["closer_ms_"+sc.Busy+"_"+sc.Closer] = time.Since(t0).Milliseconds()
+	stuckMu.Unlock()
 	raw.Close()
 	select {
 	case <-busyDone:
